@@ -290,7 +290,8 @@ Example C12_event_nonvacuous :
   DecodeEventData toyH DecModel.DecodeABIData DecModel.decode_elementary ex_event (raw1 :: tl topics) data = Err ESigMismatch.
 Proof.
   cbv zeta. split; [exact DecModel_decode_len|].
-  split; [eexists; split; vm_compute; reflexivity|]. repeat split; vm_compute; reflexivity.
+  split; [eexists; split; vm_compute; reflexivity|].
+  split; [vm_compute; reflexivity|]. split; vm_compute; reflexivity.
 Qed.
 
 Example C12_error_nonvacuous :
